@@ -246,6 +246,9 @@ func runC16(c *Ctx) {
 		return
 	}
 	ruleInferTables(c, p, "C16")
+	ruleForwardAll(c, p, "C16.forward-all")
+	ruleRowCopies(c, p, "C16.row-copy")
+	ruleAutoKeepsCompatible(c, p, "C16.auto-keeps")
 	ruleResetBefore(c, p, "C16.before")
 	ruleDict(c, p, "C16.dict")
 	ruleRebuild(c, p, "C16.rebuild")
@@ -781,7 +784,19 @@ func runC18(c *Ctx) {
 		if len(conflFalse) == 0 || !core.OnlyViaEdges(dr, s, conflFalse) {
 			why = append(why, "the type-compatibility test (Conflicts)")
 		}
-		if len(nameOK) == 0 || !core.OnlyViaEdges(dr, s, nameOK) {
+		// a branch that gives an unnamed target the wire name (t.Name = columnName) establishes the equality as well
+		namedFromWire := func(in ssa.Instruction) bool {
+			st, ok := in.(*ssa.Store)
+			if !ok {
+				return false
+			}
+			fa, ok := st.Addr.(*ssa.FieldAddr)
+			if !ok || fieldNameOnly(fa.X.Type(), fa.Field) != "Name" || !core.IsNamed(fa.X.Type(), core.PkgProto, "ResultColumn") {
+				return false
+			}
+			return core.DependsOn(st.Val, isStrRead, false) || wireParam(st.Val)
+		}
+		if len(nameOK) == 0 || len(core.ReachAvoiding(core.Entry(dr), func(in ssa.Instruction) bool { return in == s }, namedFromWire, core.WithoutEdges(nameOK))) > 0 {
 			why = append(why, "the column-name comparison")
 		}
 		// count test: exists, dominates the sink, and its mismatch edge can fail before any sink
@@ -965,6 +980,7 @@ func runC18(c *Ctx) {
 	ruleInferMaps(c, p, "C18.exact")
 	ruleMapInfer(c, p, "C18.mapinfer")
 	ruleInferCache(c, p, "C18.infer-cache")
+	ruleInferNoSharedState(c, p, "C18.shared-state")
 	ruleAdopt(c, p, "C18.adopt")
 	ruleInferTables(c, p, "C18")
 	c.R.Assumptions = append(c.R.Assumptions,
@@ -2000,4 +2016,119 @@ func ruleContentCounters(c *Ctx, p *core.Program, rule string) {
 	}
 	c.R.Count("column structs examined for bookkeeping fields["+cfg+"]", nt)
 	c.R.Floor(rule, cfg, nt, 10)
+}
+
+// ruleRowCopies (C16): a string handed out by a row accessor does not alias the column's buffer.
+func ruleRowCopies(c *Ctx, p *core.Program, rule string) {
+	c.R.Rule(rule, "no method of a column type in package proto that returns a string (Row, First, callbacks of ForEach) builds it with unsafe.String / unsafe.Slice-style reinterpretation of the column's byte buffer: Reset keeps the buffer's capacity and the next block is decoded over the same bytes, so a value the caller read from the previous block changes under its hands (strings are immutable by contract; RowBytes is the documented aliasing accessor)")
+	cfg := p.Cfg.Name
+	n := 0
+	for _, ct := range columnTypes(p) {
+		ms := types.NewMethodSet(types.NewPointer(ct))
+		for i := 0; i < ms.Len(); i++ {
+			m, ok := ms.At(i).Obj().(*types.Func)
+			if !ok {
+				continue
+			}
+			fn := p.Prog.FuncValue(m)
+			if fn == nil || fn.Blocks == nil || pkgOf(fn) == nil || pkgOf(fn).Path() != core.PkgProto {
+				continue
+			}
+			retStr := false
+			res := fn.Signature.Results()
+			for j := 0; j < res.Len(); j++ {
+				if b, ok := res.At(j).Type().Underlying().(*types.Basic); ok && b.Kind() == types.String {
+					retStr = true
+				}
+			}
+			if !retStr {
+				continue
+			}
+			n++
+			key := ct.Obj().Name() + "." + m.Name()
+			bad := false
+			for _, call := range core.Calls(fn) {
+				if bi, ok := call.Common().Value.(*ssa.Builtin); ok && (bi.Name() == "String" || bi.Name() == "StringData") {
+					bad = true
+					c.R.Bad(rule, key, cfg, p.Pos(call.Pos()), "the returned string is a view of the column's buffer (unsafe.String): it changes when the column is reset and decoded into again")
+				}
+			}
+			for _, b := range fn.Blocks {
+				for _, in := range b.Instrs {
+					if cv, ok := in.(*ssa.Convert); ok {
+						if _, isPtr := cv.X.Type().Underlying().(*types.Basic); isPtr && cv.X.Type().Underlying().(*types.Basic).Kind() == types.UnsafePointer {
+							if pt, ok := cv.Type().Underlying().(*types.Pointer); ok {
+								if bt, ok := pt.Elem().Underlying().(*types.Basic); ok && bt.Kind() == types.String {
+									bad = true
+									c.R.Bad(rule, key, cfg, p.Pos(cv.Pos()), "the returned string is reinterpreted column memory (*string from unsafe.Pointer)")
+								}
+							}
+						}
+					}
+				}
+			}
+			if !bad {
+				c.R.Ok(rule, key, cfg, p.Pos(fn.Pos()), "string result is a copy")
+			}
+		}
+	}
+	c.R.Count("string-returning column methods["+cfg+"]", n)
+	c.R.Floor(rule, cfg, n, 10)
+}
+
+// ruleAutoKeepsCompatible (C16): a compatible column held by ColAuto is not replaced.
+func ruleAutoKeepsCompatible(c *Ctx, p *core.Program, rule string) {
+	c.R.Rule(rule, "in ColAuto.Infer every store that replaces the held column (Data) is dominated by the test whether a column is already held (Data != nil, the entry of the `already compatible` shortcut): a fast path that installs a new column first drops the rows of a column that already has the requested type - a ColAuto that received a block and is inferred again before it is encoded (Client.Do does that for INSERT input) goes out with zero rows")
+	cfg := p.Cfg.Name
+	inf := p.Method(core.PkgProto, "ColAuto", "Infer")
+	if !c.must(p, "(*proto.ColAuto).Infer", inf != nil) {
+		return
+	}
+	recv := inf.Params[0]
+	isDataLoad := func(v ssa.Value) bool {
+		u, ok := v.(*ssa.UnOp)
+		if !ok || u.Op != token.MUL {
+			return false
+		}
+		fa, ok := u.X.(*ssa.FieldAddr)
+		return ok && fa.X == ssa.Value(recv) && fieldNameOnly(fa.X.Type(), fa.Field) == "Data"
+	}
+	var tests []*ssa.BasicBlock
+	for _, b := range inf.Blocks {
+		if ifi, ok := b.Instrs[len(b.Instrs)-1].(*ssa.If); ok {
+			if x, _, ok := nilCmp(ifi.Cond); ok && isDataLoad(x) {
+				tests = append(tests, b)
+			}
+		}
+	}
+	n := 0
+	bad := false
+	for _, b := range inf.Blocks {
+		for _, in := range b.Instrs {
+			st, ok := in.(*ssa.Store)
+			if !ok {
+				continue
+			}
+			fa, ok := st.Addr.(*ssa.FieldAddr)
+			if !ok || fa.X != ssa.Value(recv) || fieldNameOnly(fa.X.Type(), fa.Field) != "Data" {
+				continue
+			}
+			n++
+			dom := false
+			for _, t := range tests {
+				if t != b && t.Dominates(b) {
+					dom = true
+				}
+			}
+			if !dom {
+				bad = true
+				c.R.Bad(rule, sprintf("ColAuto.Infer/store#%d", n), cfg, p.Pos(st.Pos()), "the held column is replaced without having looked whether one is already held: rows of a column of the very type requested are dropped")
+			}
+		}
+	}
+	if !bad {
+		c.R.Ok(rule, "ColAuto.Infer", cfg, p.Pos(inf.Pos()), sprintf("%d stores to Data, all behind the Data != nil test", n))
+	}
+	c.R.Count("stores to ColAuto.Data in Infer", n)
+	c.R.Floor(rule, cfg, n, 5)
 }
